@@ -91,6 +91,12 @@ def rows(m: array[array[int, 3], 2], r: int, v: int) -> None:
     m[1 - r][0] = v + 1
 
 @guppy
+def nxt(c: array[int, 1]) -> int:
+    c[0] += 1
+    result("nxt", c[0])
+    return c[0] % 2
+
+@guppy
 def qarr(qs: array[qubit, 3], i: int) -> None:
     flip(qs[i])
     x(qs[(i + 1) % 3])
@@ -166,6 +172,33 @@ BODIES = {
     result("m1", measure(q1))
     result("m2", measure(q2))
 """,
+    "effectful_index": """
+    m = array(array(a, 1, 2), array(b, 3, 4))
+    c = array({r})
+    setel(m[nxt(c)], 1, {v})
+    addel(m[nxt(c)], 2, 7)
+    result("m0", m[0])
+    result("m1", m[1])
+""",
+    "nested_effectful_index": """
+    mm = array(array(array(a, 1, 2), array(b, 3, 4)), array(array(5, 6, 7), array(8, 9, a)))
+    c = array({r})
+    setel(mm[nxt(c)][{r}], 0, {v})
+    addel(mm[nxt(c)][1 - {r}], {i}, 20)
+    result("mm00", mm[0][0])
+    result("mm01", mm[0][1])
+    result("mm10", mm[1][0])
+    result("mm11", mm[1][1])
+""",
+    "nested_two_effectful_indices": """
+    mm = array(array(array(a, 1, 2), array(b, 3, 4)), array(array(5, 6, 7), array(8, 9, a)))
+    c = array({r})
+    setel(mm[nxt(c)][nxt(c)], 2, 30)
+    result("mm00", mm[0][0])
+    result("mm01", mm[0][1])
+    result("mm10", mm[1][0])
+    result("mm11", mm[1][1])
+""",
     "loop_borrow": """
     xs = array(a, b, 1)
     k = 0
@@ -229,7 +262,7 @@ def run(ctx):
     ctx.coverage.update({
         "programs": len(cases), "traces_validated_against_impl": validated,
         "evaluations": len(cases) * len(ARGS) * 3, "distinct_nontrivial": cnt["ok"],
-        "rule": "8 program shapes (borrowed variable / struct field / array element / nested borrow / loops / qubit arrays) "
+        "rule": "11 program shapes (borrowed variable / struct field / array element / nested borrow / loops / qubit arrays) "
                 "x seeded parameters x 3 argument tuples x 3 node schedules; non-trivial = accepted and executed "
                 "(every shape mutates through at least one borrow)",
         "samples": samples, "outcomes": dict(cnt), "exhaustive": False,
